@@ -163,36 +163,28 @@ theorem upd1_views {c c1 : Core.State} {w : Nat} {u : Core.Update} {rets rets1 :
         intro st hs
         rw [view_some hs] at hv
         exact owner_of_viewSt_ne_quiet hv
-      have own := taskReject_own hn hown h1
+      have own := taskReject_own hn hm hown h1
       -- the items of this update are about `t0` only
       have hother : ∀ w' t, t ≠ t0 → cfor w' t o1.msgs = [] := by
         intro w' t ht
-        rcases own with ⟨_, _, e, _⟩ | ⟨st, _, _, _, ⟨nc, _⟩ | ⟨target, trv, inst, _, _, e⟩⟩
+        rcases own with ⟨_, _, e, _⟩ | ⟨st, _, ⟨_, nc, _⟩ | ⟨target, trv, inst, _, _, e⟩ | ⟨_, _, _, e⟩⟩
         · rw [e]; rfl
         · exact cfor_noCompute nc
         · rw [e, cfor_single]; simp [Ne.symm ht]
+        · rw [e]; rfl
       -- the views of the reported task
       have hcase : ∀ w', (w' ≠ w → Foreign (view c w' t0) (cfor w' t0 o1.msgs) (view c1 w' t0)) ∧
           (w' = w → Own (.rej orv) (view c w t0) (cfor w t0 o1.msgs) (view c1 w t0)) := by
         intro w'
-        rcases own with ⟨h0, h0', e, _⟩ | ⟨st, h0, hnm, hnr, hcase⟩
+        rcases own with ⟨h0, h0', e, _⟩ | ⟨st, h0, hcase⟩
         · rw [e, cfor_nil, cfor_nil, view_none h0, view_none h0', view_none h0, view_none h0']
           exact ⟨fun _ => Foreign.same _, fun _ => ⟨fun _ => rfl, fun rv e => (by cases e), fun e => (by cases e)⟩⟩
         · have ho := hown _ h0
           have q0 : w' ≠ w → view c w' t0 = .quiet := fun hw' =>
             view_quiet_of_owner h0 (by rw [ho]; intro e; cases e; exact hw' rfl)
-          have hv0 : view c w t0 ≠ .hot := by
-            rw [view_some h0]
-            cases st with
-            | waiting n => cases ho
-            | finished => cases ho
-            | assigned x v => cases ho; simp [viewSt]
-            | prefilled x => cases ho; simp [viewSt]
-            | retracting x => cases ho; simp [viewSt]
-            | running x v => exact (hnr x v rfl).elim
-            | runningMN l => exact (hnm l rfl).elim
-          rcases hcase with ⟨nc, hfree⟩ | ⟨target, trv, inst, hst, h2, e⟩
-          · have hv1 : ∀ x, view c1 x t0 = .hot ∨ view c1 x t0 = .quiet := by
+          rcases hcase with ⟨hv0', nc, hfree⟩ | ⟨target, trv, inst, hst, h2, e⟩ | ⟨hhot, h2, hhot', e⟩
+          · have hv0 : view c w t0 ≠ .hot := by rw [view_some h0]; exact hv0'
+            have hv1 : ∀ x, view c1 x t0 = .hot ∨ view c1 x t0 = .quiet := by
               intro x
               cases hs1 : stOf c1.tasks t0 with
               | none => exact .inl (view_none hs1)
@@ -211,6 +203,7 @@ theorem upd1_views {c c1 : Core.State} {w : Nat} {u : Core.Update} {rets rets1 :
               · exact .inr (.inl ⟨e, rfl⟩)
           · subst hst
             have hvpre : view c w t0 = .pre := by rw [view_some h0]; simp [viewSt]
+            have hv0 : view c w t0 ≠ .hot := by rw [hvpre]; simp
             rw [e, cfor_single, cfor_single, view_some h2, view_some h2]
             constructor
             · intro hw'
@@ -229,6 +222,18 @@ theorem upd1_views {c c1 : Core.State} {w : Nat} {u : Core.Update} {rets rets1 :
                 exact .inr (.inr ⟨trv, rfl, rfl⟩)
               · simp only [viewSt, htg, if_false, false_and]
                 exact .inr (.inl ⟨by first | rfl | trivial, by first | rfl | trivial⟩)
+          · -- multi-node, started: the message is ignored
+            have hv : view c w t0 = .hot := by rw [view_some h0]; exact hhot
+            have hv' : view c1 w t0 = .hot := by rw [view_some h2]; exact hhot'
+            rw [e, cfor_nil, cfor_nil]
+            constructor
+            · intro hw'
+              have q1 : view c1 w' t0 = .quiet :=
+                view_quiet_of_owner h2 (by rw [ho]; intro e; cases e; exact hw' rfl)
+              rw [q0 hw', q1]; exact Foreign.same _
+            · intro _
+              rw [hv, hv']
+              exact ⟨fun _ => rfl, fun rv e => (by cases e), fun e => (by cases e)⟩
       refine ⟨fun w' t hc => ?_, fun t e he => ?_, fun w' t hnone => ?_⟩
       · by_cases ht : t = t0
         · rw [ht]
